@@ -5,6 +5,7 @@ import (
 	"os"
 	"strconv"
 	"strings"
+	"time"
 )
 
 // probe: `check probe 'SET a 1' 'GET a' ...` runs commands on one connection of a fresh emulator
@@ -46,6 +47,7 @@ func probeMain() {
 		v, err := use.Do(args...)
 		if err != nil {
 			fmt.Printf("%-40s -> ERROR %v\n", line, err)
+			c.WaitExit(500 * time.Millisecond)
 			if !c.Alive() {
 				fmt.Println(c.StderrHead(3000))
 				return
